@@ -184,6 +184,15 @@ func (v *ScriptView) writeModifySQLForAColumn(attrTypeOld, attrTypeNew *sysl.Typ
 			v.stringBuilder.WriteString(fmt.Sprintf(
 				"ALTER TABLE %s ADD CONSTRAINT "+fkName+" FOREIGN KEY(%s) REFERENCES %s(%s);\n",
 				tableName, attrName, typeRefNew.GetRef().Path[0], typeRefNew.GetRef().Path[1]))
+		} else if typeRefOld.GetRef().Path[0] != typeRefNew.GetRef().Path[0] ||
+			typeRefOld.GetRef().Path[1] != typeRefNew.GetRef().Path[1] {
+			// typeref points to another column now. Replace the Foreign Key Constraint
+			v.stringBuilder.WriteString(fmt.Sprintf("ALTER TABLE %s DROP CONSTRAINT %s;\n", tableName, fkName))
+			v.stringBuilder.WriteString(fmt.Sprintf("ALTER TABLE %s ALTER COLUMN %s TYPE %s;\n",
+				tableName, attrName, datatype))
+			v.stringBuilder.WriteString(fmt.Sprintf(
+				"ALTER TABLE %s ADD CONSTRAINT "+fkName+" FOREIGN KEY(%s) REFERENCES %s(%s);\n",
+				tableName, attrName, typeRefNew.GetRef().Path[0], typeRefNew.GetRef().Path[1]))
 		}
 	} else {
 		syslDataType, attributeSize := getDataTypeAndSize(attrTypeNew)
